@@ -12,7 +12,7 @@ RULE = ("ss: frame sequences built by hand and injected as raw bytes (random fra
         "while that incarnation was open, streams of other ids stay readable / open, the table sizes equal the number "
         "of open ids, new-stream announcements are exactly the SYNs. Non-trivial = at least 2 ids live at some point "
         "and at least one frame for an id that is not open; distinct by sha256 of the case.")
-SIDE_LEMMAS = 5
+SIDE_LEMMAS = 4
 ASSUMPTIONS = ["HashMap lookups by u32 key are exact (std)",
                "the model is tied to session.rs handle_frame by differential execution on the cases counted below (sampling)"]
 Case = Case
